@@ -108,6 +108,7 @@ class MasterConvergence(Observer):
         self.disturb_us = {}   # nick -> last time this instance was disturbed (fault touching it)
         self.global_disturb_us = 0
         self.samples = []      # (t_us, {nick: declared master nick or ''})
+        self.last_self_master = {}
 
     def _probe(self, name):
         self.probes[name] = self.probes.get(name, 0) + 1
@@ -140,11 +141,20 @@ class MasterConvergence(Observer):
                 master = inst.rpcif.get_master_identifier().get('identifier', '')
             self._probe('automatic_request')
             if master != inst.identifier:
-                self.violate('non-master-action', {'inst': inst.nick, 'declared_master': master,
-                                                   'request': rtype.name, 'body': list(body or ())},
-                             'non-master-action:%s' % rtype.name)
+                sig = 'non-master-action:%s' % rtype.name
+                # specific history of the recorded finding: the jobs were created while the instance declared itself
+                # Master in ELECTION (crash of a process with an application-level strategy) and go on after it has
+                # adopted another Master without re-entering ELECTION (jobs are only aborted on entering ELECTION)
+                last_self = self.last_self_master.get((inst.nick, inst.incarnation))
+                fsm_state = inst.supvisors.fsm.state.name
+                if last_self is not None and sim.now_us - last_self[0] < 60 * US and last_self[1] == 'ELECTION':
+                    sig = 'non-master-action:jobs-created-as-self-declared-master-in-ELECTION'
+                self.violate('non-master-action', {'inst': inst.nick, 'declared_master': master, 'fsm': fsm_state,
+                                                   'request': rtype.name, 'body': list(body or ())}, sig)
 
     def after_event(self, sim, inst, kind):
+        if inst.alive and inst.supvisors is not None and inst.supvisors.state_modes.is_master():
+            self.last_self_master[(inst.nick, inst.incarnation)] = (sim.now_us, inst.supvisors.fsm.state.name)
         # sample the declared masters at most every 2 simulated seconds
         if self.samples and sim.now_us - self.samples[-1][0] < 2 * US:
             return
